@@ -23,13 +23,14 @@ def c15PM : P PM := do
   let ctx ← c15Tab
   let graphs ← c15Pairs
   let qdict ← c15Tab
-  pure { models, mstate, mctx, ctx, graphs, qdict }
+  let identHeld ← bool
+  pure { models, mstate, mctx, ctx, graphs, qdict, identHeld }
 
 def c15EncPairs (t : List (Nat × Nat)) : List Nat := t.length :: t.flatMap fun e => [e.1, e.2]
 def c15EncTab (t : Tab (List Nat)) : List Nat := t.length :: t.flatMap fun e => e.1 :: e.2.length :: e.2
 def c15EncPM (M : PM) : List Nat :=
   (M.models.length :: M.models) ++ c15EncPairs M.mstate ++ (M.mctx.length :: M.mctx) ++ c15EncTab M.ctx ++
-    c15EncPairs M.graphs ++ c15EncTab M.qdict
+    c15EncPairs M.graphs ++ c15EncTab M.qdict ++ [if M.identHeld then 1 else 0]
 
 def c15EncObs : Obs → List Nat
   | .done cs b st => 0 :: cs.length :: cs ++ [if b then 1 else 0, st]
